@@ -1,5 +1,6 @@
 pub fn lcm(iter: impl Iterator<Item = usize>) -> usize {
-    iter.fold(1, |acc, x| acc * x / gcd(acc, x))
+    // divide first: `acc * x` overflows for large alignments even when the result fits
+    iter.fold(1, |acc, x| acc / gcd(acc, x) * x)
 }
 
 pub fn gcd(mut a: usize, mut b: usize) -> usize {
